@@ -380,6 +380,11 @@ def c06_extra(ctx):
     if foreign:
         ctx.violation(f"GET /head/t?follow&context=B streamed {len(foreign)} frame(s) of another context (same topic appended in the "
                       f"zero context) to the follower of context B", dict(engine="H", probe="head_follow_probe", result=str(r)[:600]))
+    # ... and the follower that names no context is scoped to the zero context, not to all of them
+    for sd in [ctx.rnd.randrange(1, 10 ** 9) for _ in range(2 if ctx.tier == "quick" else 12)]:
+        hf = robust(V.head_follow_probe, "head follow probe")(sd)
+        for v in hf["violations"][:1]:
+            ctx.violation(v["what"][:600], dict(engine="V", probe="head_follow_probe", seed=sd))
     # handler dispatch and handler output contexts (engine V): a few scenarios with handlers in several contexts whose
     # scripts ask for foreign contexts with --context
     for sd in [ctx.rnd.randrange(1, 10 ** 9) for _ in range(3 if ctx.tier == "quick" else 30)]:
@@ -922,6 +927,14 @@ def c13_run(ctx):
             if s_.startswith("5"):
                 ctx.violation(f"request #{n} ({k}) answered {s_}: a request the store refuses is a client error (4xx), and nothing else may fail",
                               dict(engine="H", seed=sd, n_requests=n_req, request_index=n, raw_request=r["raws"][n]))
+    # GET /head/<topic>?follow=true stands for `head` kept up to date: scoped like head (zero context when none is named)
+    n_hf = 0
+    for sd in [ctx.rnd.randrange(1, 10 ** 9) for _ in range(2 if ctx.tier == "quick" else 12)]:
+        hf = robust(V.head_follow_probe, "head follow probe")(sd)
+        n_hf += hf["probes"]
+        for v in hf["violations"][:1]:
+            ctx.violation(v["what"][:600], dict(engine="V", probe="head_follow_probe", seed=sd))
+    ctx.coverage["head_follow_probes"] = n_hf
     if first_mismatch and not any(not v["no_input"] for v in ctx.violations):
         sd, m = first_mismatch
         ctx.violation(f"HTTP route deviates from the store operation it stands for: request `{m['request'][:200]}` answered "
@@ -996,7 +1009,7 @@ def handler_run(pid, extra=None):
                               f"trigger was answered by {b0['answers']} and the instances announced as unregistered are {b0['unregistered']} - exactly one "
                               f"active instance per (context, name), the replaced one announced ({len(dr['bad'])} of {dr['trials']} trials)",
                               dict(engine="V", probe="double_register_probe", result=dr))
-        if pid == "C14":
+        if pid in ("C14", "C16"):   # C16: "once .registered is visible ... every later frame of its context is processed"
             lp = robust(lambda _sd: V.handler_lag_probe(), "handler lag probe")(0)
             ctx.coverage["lag_probe"] = lp
             if lp.get("error"):
